@@ -117,10 +117,10 @@ Definition tz_off (tz : option (Z -> Z)) (wall : Z) : Z :=
      epoch = datetime(1970, 1, 1, tzinfo=value.tzinfo)
      offset = value.utcoffset() or timedelta(0)          -- the offset AT THE VALUE
      delta = value - epoch - offset                      -- same tzinfo: wall-clock difference
-     return (delta.days * 86400 + delta.seconds) * 1000 + delta.microseconds // 1000
-   timedelta is normalised (0 <= seconds < 86400, 0 <= microseconds < 10^6) so this is floor(total_us / 1000). *)
+     micros = (delta.days * 86400 + delta.seconds) * 1000000 + delta.microseconds
+     return micros // 1000 if micros >= 0 else -(-micros // 1000)      -- truncation toward zero = Z.quot *)
 Definition datetime_to_db (wall : Z) (tz : option (Z -> Z)) : Z :=
-  (wall - tz_off tz wall) / 1000.
+  Z.quot (wall - tz_off tz wall) 1000.
 
 (* The code before the repair, bit-exact:
      epoch = datetime(1970, 1, 1, tzinfo=value.tzinfo)
@@ -173,7 +173,8 @@ Fixpoint to_database (c : col) (v : pyval) {struct c} : option pyval :=
   | CInteger | CTinyInt | CSmallInt | CBigInt | CVarInt | CCounter => int_validate v
   | CText | CAscii | CInet | CBoolean | CDuration => Some v          (* Column.to_database: identity *)
   | CBlob => match v with
-             | PBytes bs | PByteArray bs => Some (PByteArray bs)
+             | PNone => Some PNone
+             | PBytes bs | PByteArray bs => Some (PBytes bs)         (* bytes(val): hashable *)
              | _ => None                                             (* raise Exception("expecting a binary") *)
              end
   | CFloat | CDouble => float_validate v
@@ -235,8 +236,12 @@ Fixpoint to_database (c : col) (v : pyval) {struct c} : option pyval :=
   end.
 
 (* ------------------------------------------------------------------ CQL value of a Python value under a CQL type *)
+(* struct.pack('>f', x): a negative value that underflows keeps its sign: -0.0 *)
 Definition float_value32 (m e : Z) : option value :=
-  match round32 (m, e) with Some (m', e') => Some (VFloat m' e') | None => None end.
+  match round32 (m, e) with
+  | Some (m', e') => if (m' =? 0) && (m <? 0) then Some (VFloatSpec 3) else Some (VFloat m' e')
+  | None => None
+  end.
 
 (* rich = false: only the database-ready forms to_database produces (what the CQL literal means to the server);
    rich = true : every Python form cassandra.cqltypes.<Type>.serialize accepts (the prepared-statement path). *)
@@ -274,7 +279,7 @@ Definition scalar_value (rich : bool) (t : cqltype) (v : pyval) : option value :
   (* DateType.serialize(datetime): calendar.timegm(v.utctimetuple()) * 1e3 + microsecond / 1e3 -- intended
      semantics = the exact millisecond instant; stated for whole-millisecond instants (see `valid`) *)
   | TTimestamp, PDatetime wall tz =>
-      let ms := (wall - tz_off tz wall) / 1000 in
+      let ms := Z.quot (wall - tz_off tz wall) 1000 in
       if rich && in_i64 ms then Some (VTimestamp ms) else None
   | TTimestamp, PDate d => if rich && in_i64 (d * 86400000) then Some (VTimestamp (d * 86400000)) else None
   | TDuration, PDuration mo d ns => Some (VDuration mo d ns)
@@ -349,13 +354,11 @@ Definition valid_scalar (c : col) (v : pyval) : bool :=
   | CTime, PTimeOfDay us => in_i64 (us * 1000)
   (* a datetime denoting a whole-millisecond instant (sub-millisecond digits: see C36_datetime_exact_ms) *)
   | CDateTime, PDatetime wall tz =>
-      ((wall - tz_off tz wall) mod 1000 =? 0) && in_i64 ((wall - tz_off tz wall) / 1000)
+      ((wall - tz_off tz wall) mod 1000 =? 0) && in_i64 (Z.quot (wall - tz_off tz wall) 1000)
   | CDateTime, PDate d => in_i64 (d * 86400000)
   | CDuration, PDuration _ _ _ => true
   | _, _ => false
   end.
-
-Definition is_blob (c : col) : bool := match c with CBlob => true | _ => false end.
 
 Definition is_none (v : pyval) : bool := match v with PNone => true | _ => false end.
 
@@ -377,7 +380,7 @@ Fixpoint valid (c : col) (v : pyval) {struct c} : bool :=
                 end
   | CTuple cs => match v with
                  | PTuple l | PList l =>
-                     forall2b (fun c' x => if is_none x then negb (is_blob c') else valid c' x) cs l
+                     forall2b (fun c' x => if is_none x then true else valid c' x) cs l
                  | _ => false
                  end
   | CUDT fs => match v with
@@ -432,6 +435,13 @@ Fixpoint value_eqb (a b : value) {struct a} : bool :=
   | _, _ => false
   end.
 
+Definition opt_eqb {A : Type} (eqb : A -> A -> bool) (a b : option A) : bool :=
+  match a, b with
+  | Some x, Some y => eqb x y
+  | None, None => true
+  | _, _ => false
+  end.
+
 Fixpoint pyval_eqb (a b : pyval) {struct a} : bool :=
   match a, b with
   | PNone, PNone => true
@@ -439,6 +449,8 @@ Fixpoint pyval_eqb (a b : pyval) {struct a} : bool :=
   | PInt x, PInt y | PFloatSpec x, PFloatSpec y | PUuid x, PUuid y | PDate x, PDate y
   | PTimeOfDay x, PTimeOfDay y | PUtilDate x, PUtilDate y | PUtilTime x, PUtilTime y => x =? y
   | PFloat m e, PFloat m' e' => dy_eqb (m, e) (m', e')
+  | PDatetime w t, PDatetime w' t' =>        (* same wall clock, same offset at that wall clock *)
+      (w =? w') && opt_eqb Z.eqb (option_map (fun f => f w) t) (option_map (fun f => f w') t')
   | PStr x, PStr y | PBytes x, PBytes y | PByteArray x, PByteArray y | PInet x, PInet y => zlist_eqb x y
   | PDecimal n c e, PDecimal n' c' e' => Bool.eqb n n' && (c =? c') && (e =? e')
   | PDuration a1 a2 a3, PDuration b1 b2 b3 => (a1 =? b1) && (a2 =? b2) && (a3 =? b3)
@@ -449,13 +461,6 @@ Fixpoint pyval_eqb (a b : pyval) {struct a} : bool :=
   | PDict x, PDict y =>
       forallb (fun u => existsb (fun w => pyval_eqb (fst u) (fst w) && pyval_eqb (snd u) (snd w)) y) x &&
       forallb (fun w => existsb (fun u => pyval_eqb (fst u) (fst w) && pyval_eqb (snd u) (snd w)) x) y
-  | _, _ => false
-  end.
-
-Definition opt_eqb {A : Type} (eqb : A -> A -> bool) (a b : option A) : bool :=
-  match a, b with
-  | Some x, Some y => eqb x y
-  | None, None => true
   | _, _ => false
   end.
 
